@@ -14,6 +14,7 @@ from shredlint.facts import load
 
 PROPS = ["C%02d" % i for i in range(1, 21)]
 DIR = "/var/tmp/devfacts"
+ALL_CONFIGS = False
 
 
 class FastCtx(Ctx):
@@ -23,11 +24,22 @@ class FastCtx(Ctx):
         self._f_path = path
         self._d = None
 
+    @property
+    def configs(self):
+        if not ALL_CONFIGS:
+            return ["default"]
+        return ["default"] + [c for c in ("nopar", "nopar-derive", "nightly") if os.path.exists(self._f_path[:-5] + "@%s.json" % c)]
+
     def facts(self, config="default", crate="shred", kind="rlib"):
         if crate == "shred_derive":
             if self._d is None:
                 self._d = load(self._f_path[:-5] + ".derive.json", label="default")
             return self._d
+        if config != "default":
+            k = "_f_" + config
+            if k not in self.__dict__:
+                self.__dict__[k] = load(self._f_path[:-5] + "@%s.json" % config, label=config)
+            return self.__dict__[k]
         return self._f
 
     def all_facts(self, config):
@@ -84,7 +96,14 @@ def main(argv):
     if args and args[0] == "-v":
         verbose = True
         args = args[1:]
-    names = sorted(fn[:-5] for fn in os.listdir(DIR) if fn.endswith(".json") and not fn.endswith(".derive.json"))
+    global ALL_CONFIGS
+    if args and args[0] == "--all-configs":
+        ALL_CONFIGS = True
+        args = args[1:]
+    if args and args[0] == "--dir":
+        DIR = args[1]
+        args = args[2:]
+    names = sorted(fn[:-5] for fn in os.listdir(DIR) if fn.endswith(".json") and not fn.endswith(".derive.json") and "@" not in fn)
     if args:
         names = [n for n in names if any(n.startswith(a) for a in args)]
     if "BASE" not in names:
